@@ -66,6 +66,8 @@ def make_cases(ctx, rng):
             c["schedule"] = [int(x) + 1 for x in rng.permutation(int(folds))]
         if idx % 11 == 5:
             c["refeed_seed"] = int(c["seed"] + 1 + idx % 3)      # trained models re-applied under another seed
+        if c["keyw"] >= 3 and idx % 3 == 0:
+            c["share2"] = True      # pairs of distinct spectra that agree on the first two key columns
         cases.append(c)
         idx += 1
     # larger random datasets, several estimators incl. real learners
@@ -88,6 +90,8 @@ def make_cases(ctx, rng):
              "seed": j, "est": ["feat", "memo", "lr", "tree", "svm"][j % 5], "max_iter": 1 + j % 3, "direction": None, "override": True}
         if j % 5 == 0 and j % 2 == 1:
             c["refeed_seed"] = j + 17
+        if c["keyw"] >= 3 and j % 8 != 7:
+            c["share2"] = True
         if j % 4 == 3:
             rows2 = rows_from_shape(spec_of[: n // 2], rng, id0=1000)
             for r in rows2:
